@@ -67,6 +67,7 @@ func PendingLen(c Conn) int {
     'sse': {
         'pkg': 'zzverif/worlds/sse',
         'rewrite': [('cmd/templ/generatecmd/sse', 'sync')],
+        'gostart': ['cmd/templ/generatecmd/sse'],
     },
 }
 
